@@ -40,6 +40,7 @@ def op_strategy(ops=None, value=None, max_target=40):
       'v': value,
       'src': st.one_of(st.none(), st.none(), st.integers(0, max_target)),
       'sv': st.booleans(),
+      'own': st.sampled_from([False, False, False, False, False, True]),
       'nf': st.sampled_from([False, False, False, True]),
       'm': st.integers(0, 5),
       'locs': st.lists(st.fixed_dictionaries({
@@ -181,6 +182,13 @@ def apply_op(roots, op, allow_move=True, direct_inplace=False, prebuilt=None, bu
       out.used_src = True
       if cand.sym_parent is None:
         moved_root = cand
+  if _get(op, 'own') and isinstance(n, pg.List) and len(n) and allow_move:
+    # the value is the target list's own child at the very index the op addresses
+    idx = i % len(n)
+    cand = n.sym_getattr(idx)
+    if isinstance(cand, pg.Symbolic):
+      val, i = cand, idx
+      out.used_src = True
   sv_flag = bool(_get(op, 'sv'))
   _b = builder if builder is not None else (lambda x: values.build(x, symbolic=sv_flag))
   # rebind(..., skip_notification=True) when the op asks for it
